@@ -167,6 +167,59 @@ Theorem C02_local_numbers_defined sp h t : wf_spelling sp -> sloc sp = Some (h, 
 Proof. exact (local_numbers_defined sp h t). Qed.
 Print Assumptions C02_local_numbers_defined.
 
+
+(* 10. str() is an exact invariant of the components: two accepted strings have the same str() exactly when every component agrees
+       (so str() can stand for the object, e.g. as a dictionary key, without merging or splitting versions); str of the re-read
+       normal form is the normal form again *)
+Theorem C02_str_injective a b x y : Version a = Some x -> Version b = Some y -> (vstr x = vstr y <-> x = y).
+Proof.
+  intros Ha Hb. split; [|now intros ->]. intros E.
+  pose proof (C02_str_roundtrip a x Ha) as Rx. pose proof (C02_str_roundtrip b y Hb) as Ry. rewrite E in Rx. congruence.
+Qed.
+Print Assumptions C02_str_injective.
+Theorem C02_str_idempotent s v w : Version s = Some v -> Version (vstr v) = Some w -> vstr w = vstr v.
+Proof. intros E F. rewrite (C02_str_roundtrip s v E) in F. now injection F as <-. Qed.
+Print Assumptions C02_str_idempotent.
+
+(* 11. public is str() of the version without its local label (not merely a string that re-reads to it), base_version is str() of epoch and
+       release alone; both are idempotent, public leaves a version without local label alone, and base_version of public is base_version *)
+Theorem C02_public_is_str_of_public s v : Version s = Some v -> public_str v = vstr (drop_local v).
+Proof. intros E. apply public_str_eq. eapply Version_wf; eassumption. Qed.
+Print Assumptions C02_public_is_str_of_public.
+Theorem C02_public_idempotent s v : Version s = Some v ->
+  exists w, Version (public_str v) = Some w /\ public_str w = public_str v /\ Py.local w = None.
+Proof.
+  intros E. exists (drop_local v). pose proof (C02_public s v E) as P. split; [exact P|]. split; [|reflexivity].
+  rewrite (C02_public_is_str_of_public _ _ P), (C02_public_is_str_of_public _ _ E). reflexivity.
+Qed.
+Print Assumptions C02_public_idempotent.
+Theorem C02_public_without_local s v : Version s = Some v -> Py.local v = None -> public_str v = vstr v.
+Proof.
+  intros E L. rewrite (C02_public_is_str_of_public s v E). f_equal. destruct v; cbn in L |- *. unfold drop_local; cbn. now subst.
+Qed.
+Print Assumptions C02_public_without_local.
+Theorem C02_base_idempotent s v : Version s = Some v ->
+  exists w, Version (base_str v) = Some w /\ base_str w = base_str v /\ base_str (drop_local v) = base_str v /\
+            Py.pre w = None /\ Py.post w = None /\ Py.dev w = None /\ Py.local w = None /\
+            Py.epoch w = Py.epoch v /\ Py.release w = Py.release v.
+Proof.
+  intros E. exists (base_of v). split; [exact (C02_base_version s v E)|]. repeat split.
+Qed.
+Print Assumptions C02_base_idempotent.
+
+(* 12. canonicalize_version sends equal versions to one string whatever spelling they came from, in particular str(v) and the
+       original text; and with strip_trailing_zero=False two texts get the same result exactly when all components agree *)
+Theorem C02_canon_of_str s v : Version s = Some v -> canon true (vstr v) = canon true s /\ canon false (vstr v) = canon false s.
+Proof.
+  intros E. pose proof (C02_str_roundtrip s v E) as R. unfold canon. now rewrite R, E.
+Qed.
+Print Assumptions C02_canon_of_str.
+Theorem C02_canon_nostrip_exact a b x y : Version a = Some x -> Version b = Some y -> (canon false a = canon false b <-> x = y).
+Proof.
+  intros Ha Hb. rewrite (C02_canon_nostrip_is_str a x Ha), (C02_canon_nostrip_is_str b y Hb). exact (C02_str_injective a b x y Ha Hb).
+Qed.
+Print Assumptions C02_canon_nostrip_exact.
+
 (* non-vacuity: " V1!02.0-PREVIEW_3.r.dev+Ab-01\n" is accepted and read as 1!2.0rc3.post0.dev0+ab.1 *)
 Example C02_nonvacuous :
   option_map vstr (Version [32;86;49;33;48;50;46;48;45;80;82;69;86;73;69;87;95;51;46;114;46;100;101;118;43;65;98;45;48;49;10])
